@@ -104,7 +104,7 @@ package turbotunnel
 //
 // QueuePacketConn. closed is close-only; the connection is closed exactly once (closeOnce).
 //@ func (c *QueuePacketConn) QueueIncoming(p []byte, addr net.Addr)
-//@   props C17, C05
+//@   props C17, C05, C20
 //@   flag concurrent closeonly=closed
 //@   requires c != nil
 //@   at call send assert {enqueues-a-private-copy-tagged-with-the-callers-address} ch == c.recvQueue && value.Addr == addr && fresh(value.P) && len(value.P) == len(p) && (forall k int :: 0 <= k && k < len(p) ==> value.P[k] == p[k])
@@ -124,7 +124,7 @@ package turbotunnel
 //@   ensures {error-only-when-closed} err != nil ==> closed(c.closed)
 //
 //@ func (c *QueuePacketConn) WriteTo(p []byte, addr net.Addr) (n int, err error)
-//@   props C17, C05
+//@   props C17, C05, C20
 //@   flag concurrent closeonly=closed nosafety
 //@   requires c != nil
 //@   assumes c.clients != nil
@@ -161,12 +161,14 @@ package turbotunnel
 // exchange and its two pumps (B1: no pump can be parked forever on its error report).
 //@ func (c *RedialPacketConn) exchange(conn net.PacketConn)
 //@   props C17
-//@   flag concurrent nosafety paired-select=exchange$1,exchange$2
+//@   flag concurrent nosafety paired-select=exchange$1,exchange$2 watches=readErrCh,writeErrCh
 //@   requires c != nil
 //
+// Each pump stops when the connection is closed and when the OTHER pump has failed (so that no pump survives the
+// exchange holding the abandoned carrier), and exchange itself returns when either pump has failed.
 //@ func (c *RedialPacketConn) exchange$1()
 //@   props C17
-//@   flag concurrent nosafety closeonly=closed
+//@   flag concurrent nosafety closeonly=closed watches=closed,writeErrCh
 //@   requires {error-report-cannot-block} chancap(readErrCh) >= 1 && sends(readErrCh) == 0 && !closed(readErrCh) && readErrCh != nil
 //@   loop 1 invariant sends(readErrCh) == 0 && !closed(readErrCh) && chancap(readErrCh) >= 1
 //@   at call send assert {received-packets-are-private-copies} ch == readErrCh || fresh(value)
@@ -174,7 +176,7 @@ package turbotunnel
 //
 //@ func (c *RedialPacketConn) exchange$2()
 //@   props C17
-//@   flag concurrent nosafety closeonly=closed lifetime=closed
+//@   flag concurrent nosafety closeonly=closed lifetime=closed watches=closed,readErrCh,sendQueue
 //@   requires {error-report-cannot-block} chancap(writeErrCh) >= 1 && sends(writeErrCh) == 0 && !closed(writeErrCh) && writeErrCh != nil
 //@   loop 1 invariant sends(writeErrCh) == 0 && !closed(writeErrCh) && chancap(writeErrCh) >= 1
 //@   ensures {closes-its-error-channel-on-every-path} closed(writeErrCh)
@@ -187,7 +189,7 @@ package turbotunnel
 //@   ensures {error-only-after-close-or-dial-failure} err != nil ==> closed(c.closed)
 //
 //@ func (c *RedialPacketConn) WriteTo(p []byte, addr net.Addr) (n int, err error)
-//@   props C17
+//@   props C17, C20
 //@   flag concurrent closeonly=closed nosafety
 //@   requires c != nil && c.closed != nil
 //@   at call send assert {enqueues-a-private-copy} ch == c.sendQueue && fresh(value) && len(value) == len(p) && (forall k int :: 0 <= k && k < len(p) ==> value[k] == p[k])
